@@ -278,6 +278,8 @@ def oracle(rng, names, reps, tier, res, problems):
                 worst[name] = max(worst.get(name, 0.0), detail)
             else:
                 res.extra["oracle_skipped"] = res.extra.get("oracle_skipped", 0) + 1
+                sk = res.extra.setdefault("oracle_skip_reasons", {})
+                sk[f"{name}: {detail}"] = sk.get(f"{name}: {detail}", 0) + 1
 
 
 # ------------------------------------------------------------------ the check
